@@ -114,7 +114,7 @@ func c07Geometry(c *fw.Ctx, idx int) {
 	r := c.R
 	g := c07Model(r)
 	c.SetInput(map[string]any{"geometry": g.String()})
-	t := g.BuildFlat()
+	t := spareStored(c, g, g.BuildFlat())
 	var data []byte
 	var err error
 	if c.R.Chance(1, 4) {
